@@ -1,14 +1,33 @@
 #!/usr/bin/env python3
-"""MANIFEST.setup_cmd: build the Lean library and drivers once, offline."""
-import os, sys, subprocess
+"""MANIFEST.setup_cmd: build the Lean library and drivers once, offline.
+
+Builds, per registered check, its property module (and with it the models,
+specs, lemmas and generated snapshots it imports) and every driver executable.
+A module that fails here is reported but does not fail the setup: the check that
+owns it will report it (with a replay) when it runs."""
+import os, sys, re, subprocess
 sys.path.insert(0, os.path.dirname(os.path.abspath(__file__)))
-import lib
+import lib, manifest_src
+
 os.chdir(lib.VERIF)
+lib.ensure_dir(lib.BUILD)
 try:
     import gen_half
     gen_half.regenerate()
 except Exception as e:
     print("gen_half:", e)
-rc, out = lib.lake_build([], timeout=3 * 3600)
-print(out[-3000:])
-sys.exit(0 if rc == 0 else 1)
+targets = []
+for pid in sorted(manifest_src.CHECKS):
+    p = os.path.join(lib.LEAN, "ImathVerif", "Props", pid + ".lean")
+    if os.path.exists(p):
+        targets.append("ImathVerif.Props." + pid)
+exes = re.findall(r'^name\s*=\s*"(drv_\w+)"', open(os.path.join(lib.LEAN, "lakefile.toml")).read(), re.M)
+bad = []
+for t in targets + exes:
+    rc, out = lib.lake_build([t], timeout=3 * 3600)
+    print("[setup] lake build %s -> %s" % (t, "ok" if rc == 0 else "FAILED"))
+    if rc != 0:
+        bad.append(t)
+        print(out[-1500:])
+print("[setup] built %d targets, %d failed: %s" % (len(targets) + len(exes), len(bad), bad))
+sys.exit(0)
